@@ -282,7 +282,10 @@ pub fn event_names(max_len: usize) -> Vec<String> {
         level = next;
     }
     out.extend(
-        ["user-created", "user:created", "app://ready", "download/progress", "state_changed", "A-B", "x-1", "plugin:fs|read", "v2/api:call", "__internal"]
+        ["user-created", "user:created", "app://ready", "download/progress", "state_changed", "A-B", "x-1", "plugin:fs|read", "v2/api:call", "__internal",
+            // characters Rust (and Tauri's event-name rule) counts as alphanumeric that JavaScript does
+            // not allow in an identifier, letters outside ASCII and outside the BMP
+            "area-m²-changed", "grade-🄰", "half-½", "circled-①", "Ⓐ", "café-opened", "漢字-ready", "x₁", "𠮷田:saved", "²"]
             .iter()
             .map(|s| s.to_string()),
     );
@@ -293,7 +296,7 @@ pub fn name_cases(tier: Tier) -> Vec<Case> {
     let mut v = vec![];
     let field_idents = ["a", "id", "user_id", "user_id2", "x1_y", "http_url", "a__b", "_p", "r#type", "r#match"];
     let variant_idents = ["A", "Done", "InProgress", "HTTPServer", "V2Beta", "Io", "r#Self_"];
-    let renames = ["a", "user-id", "USER-ID", "2x", "a b", "a.b", "ünï", "type", "say \"hi\"", "", "back\\slash", "it's", "$ok", "class"];
+    let renames = ["a", "user-id", "USER-ID", "2x", "a b", "a.b", "ünï", "type", "say \"hi\"", "", "back\\slash", "it's", "$ok", "class", "m²", "CO₂", "Ⓐ", "🄰", "x₁", "½", "\u{301}x", "größe", "名前", "𠮷", "a\u{200d}b", "col·lecció"];
     let mut ras: Vec<Option<String>> = vec![None];
     ras.extend(RENAME_ALL.iter().map(|s| Some(s.to_string())));
     for ra in &ras {
